@@ -10,9 +10,10 @@ def run(ctx):
     quick = ctx.quick
     defs = {
         "MCNames": tla_set_of(["a", "az", "z", "aa"] if quick else ["a", "az", "z", "aa", "za", "a_"]),
-        "MCHelps": tla_set_of(["a", "az"] if quick else ["a", "az", "z"]),
+        "MCHelps": tla_set_of(["a", "az"] if quick else ["a", "az", "z", "aÿ"]),
         "MCLN": tla_set_of(["a", "z", "az"]),
-        "MCVals": "StrUpTo({LA, LZ}, 2)" if quick else "StrUpTo({LA, LZ}, 2) \\cup {<<LA, LZ, LA>>, <<EACUTE>>, <<LA, EACUTE>>}",
+        # values incl. boundary-shifted splits around plain letters and around U+FF (whose scalar value is the library's separator byte)
+        "MCVals": "{<<>>, <<LA>>, <<LZ>>, <<LA, LZ>>, <<YUML>>, <<LA, YUML>>, <<YUML, LA>>}" if quick else "StrUpTo({LA, LZ}, 2) \\cup {<<LA, LZ, LA>>, <<EACUTE>>, <<LA, EACUTE>>, <<YUML>>, <<LA, YUML>>, <<YUML, LA>>}",
         "MCTheorem": "RandomSubset(%d, Pool)" % (500 if quick else 1500),
     }
     mc = mc_module("MCDescGen", "DescGen, Randomization", defs)
